@@ -150,6 +150,25 @@ def table_case(res, drv, tmp, k, t, t2, idents, idents2, empty_reload):
                 if mo != rec_str(got):
                     res.disagree('multi look-up', sc, rec_str(got), mo)
         res.nontriv(['tbl', sorted(t), ident])
+    # ---------------- a stacked store whose FRONT member learns identities while the stack is in use (an override
+    # added to the store in front of the one that has answered so far): every look-up is answered by the first member
+    # that knows the identity NOW, whatever the stack answered before
+    front = {}
+    m3 = MULTI.Authenticator()
+    m3.add(MEM.Authenticator(front)), m3.add(mem2)
+    for phase in ('before', 'after'):
+        for ident in idents:
+            res.evaluations += 1
+            try:
+                got = m3.get_authkey(ident)
+            except Exception as e:
+                res.violation('C17', 'lookup-raises', 'stacked store raised %r for look-up %r' % (e, ident), dict(script, lookup=ident))
+                continue
+            want = front.get(ident) or t2.get(ident)
+            if (got or None) and not want or (want and not got) or (got and want and any(got[x] != want[x] for x in want)):
+                res.violation('C17', 'multi-first', 'stacked store whose front member was given its identities %s the first round of look-ups returned %r for %r; the first member that knows it now has %r' % (phase, got, ident, want), dict(script, lookup=ident, phase=phase))
+        front.update({i: dict(r) for i, r in t.items()})
+        res.note('multi.front-member-updated')
     # ---------------- the JSON store RECONFIGURED: the file now holds table 2 (every fourth time: nobody) and is
     # reloaded; it must answer exactly what is configured NOW - also for the identities it knew before
     t3 = {} if empty_reload else t2
